@@ -149,7 +149,7 @@ def main(tier_: str) -> int:
         dsecs = [0.001, 0.5, 1, 3.999, 4, 7.9, 8, 8.001, 16, 29, 30, 31, 39.98, 40, 40.5, 120, 200, 1199, 1201, 3601]
         vecs = []
         for tmpl in ('hand_made.mpd', 'manifest_a.mpd', 'manifest_n.mpd'):
-            for start in ('2024-02-29T23:50:00Z', 'epoch', 'today', 'year', '2024-02-29T23:50:00.500Z'):
+            for start in ('2024-02-29T23:50:00Z', 'epoch', 'today', 'year', '2024-02-29T23:50:00.500Z', '2024-02-29T20:20:00-03:30'):
                 for opts in ('depth=30', 'depth=20&mup=4', 'depth=60&mup=-1', 'depth=30&abr=0'):
                     vecs.append((tmpl, f'start={start}&{opts}&timeline=1'))
         if tier_ == 'quick':
@@ -182,9 +182,10 @@ def main(tier_: str) -> int:
                                       'pub1': inst(p1['publishTime']), 'pub2': inst(p2['publishTime']),
                                       'ast1': inst(p1['availabilityStartTime']), 'ast2': inst(p2['availabilityStartTime'])})
             # patches (hand_made only): T1 manifest with patch=1, its PatchLocation fetched at T2
-            pv = [f'start={s}&{o}&patch=1' for s in ('2024-02-29T23:50:00Z', 'epoch', 'today', '2024-02-29T23:50:00.500Z', '2024-02-29T22:10:07.250Z')
+            pv = [f'start={s}&{o}&patch=1' for s in ('2024-02-29T23:50:00Z', 'epoch', 'today', '2024-02-29T23:50:00.500Z', '2024-02-29T22:10:07.250Z',
+                                                              '2024-02-29T20:20:00-03:30', '2024-03-01T05:20:00%2B05:30')
                   for o in ('depth=30', 'depth=20&mup=4', 'depth=45&drm=all')]
-            for qs in (pv if tier_ == 'thorough' else rng.sample(pv[:9], 4) + rng.sample(pv[9:], 2)):
+            for qs in (pv if tier_ == 'thorough' else rng.sample(pv[:9], 3) + rng.sample(pv[9:15], 2) + rng.sample(pv[15:], 2)):
                 for ds in (rng.sample(dsecs, 6) if tier_ == 'quick' else dsecs):
                     t1 = base + datetime.timedelta(seconds=rng.choice([0, 0.25, 2.0, 3.5, 180.75]))
                     t2 = t1 + datetime.timedelta(seconds=ds)
